@@ -491,6 +491,34 @@ PROPS = {
         "level_note": "Trusted: tag function and the sequential model in c17_test.go; Go race detector.",
         "technique": "property-based generation of concurrent programs (rapid) + race detector + history invariants over tagged payloads; sequential model-based check",
     },
+    "C20": {
+        "title": "historical engines",
+        "run": "^TestC20_",
+        "level": "exploration",
+        "shards": 16,
+        "timeout": 600,
+        "thorough_scale": 10,
+        "thorough_timeout": 2400,
+        "rule": "C20/engines: boards with short histories (generated games, synthetic odd-material positions, K+pieces v K endings; "
+                "the heuristics read last moves, castled flags and the move number) x branch limits 0..10 x material factors 1..100. "
+                "Oracle: eval.Material, TUROCHAMP material and evaluation, BERNSTEIN evaluation and SARGON points (after its per-search "
+                "reset; at the root and after a third of the legal moves) are finite numbers (no NaN/Inf/panic); Material, TUROCHAMP "
+                "and BERNSTEIN give exactly the same value on the game and on the whole game mirrored (ranks flipped, colours, rights, "
+                "e.p. and every move mirrored); FindPlausibleMoves returns a duplicate-free subset of the oracle's legal moves, non-"
+                "empty when a legal move exists, and through PlausibleMoveTable{Limit}.Explore at most Limit and at least one; "
+                "SkipUnderPromotions keeps a legal move when one exists and no under-promotion; IsConsiderableMove (called on the "
+                "board after the move, as the search does) is total on every legal move, accepts mates and rejects quiet non-mating "
+                "moves. C20/books: every reply of the SARGON and BERNSTEIN books for the initial position, its 20 successors and "
+                "their successors is legal in the position it is keyed on; engine.NewBook over generated legal opening lines (incl. "
+                "transposing lines) offers the line move and only legal moves at every position of every line, and refuses a line "
+                "whose last move is illegal. Non-trivial = distinct boards with bare king / in check / castling or promotion "
+                "available / no legal move / a history; book cases with at least one position. evaluations = cases.",
+        "assumptions": COMMON_ASSUMPTIONS + ["colour symmetry is judged with exact equality (the three evaluations are quantised)"],
+        "level_text": "Exploration: ~6k boards with histories per quick run through every evaluator and filter of the three "
+                      "historical engines, a metamorphic mirror relation for colour-blindness, and ~3k generated opening books.",
+        "level_note": "Trusted: harness/oracle legality and mirroring.",
+        "technique": "property-based testing (rapid): totality + metamorphic (mirror) relation + legality oracle for filters and books",
+    },
 }
 
 # Properties not claimed, with the reason (kept current).
